@@ -3133,3 +3133,118 @@ PROPS["C03"] = {
     "explanation": "see DESIGN.md section 7 (C03) for the theorem status; tie: status, observation, D, R and F must agree between library and model (the model's writer and parser embody the recorded findings exactly, so a new defect shows as a disagreement even where an oracle failure is classified as known); oracle on the library: R:= and F:1",
     "assumptions": ["exhaustive = all event sequences up to the stated length over the stated alphabet (not all texts)"],
 }
+
+
+# ------------------------------------------------------------------------------------------
+# C02 / C01 — faithful parsing against an abstract playlist written from the RFC
+
+from . import faithful as FA
+
+
+def c02_build(ctx):
+    rng = ctx.rng
+    cases = []
+    for t in corpus_texts():
+        if not ("#EXTINF" in t or "TARGETDURATION" in t):
+            cases.append(mk("master", t, group="corpus"))
+    for _ in range(ctx.n(5000, 100000)):
+        a = FA.gen_master_ast(rng, ctx.features)
+        cases.append(mk("master", FA.render_master(rng, a), group="abstract", meta={"expect": FA.expect_master(a)}))
+    # prefix look-alikes of known tags are unknown tags (RFC 8216 6.3.1: ignore what you do not recognise)
+    for t in ["#EXT-X-INDEPENDENT-SEGMENTSX", "#EXT-X-INDEPENDENT-SEGMENTS-2:YES", "#EXT-X-STARTX:TIME-OFFSET=1", "#EXT-X-MEDIAX:TYPE=AUDIO", "#EXT-X-SESSION-DATA2:DATA-ID=\"x\""]:
+        a = FA.gen_master_ast(rng, ctx.features)
+        a["items"].append(("unknown", t)); a["unknown"].append(t)
+        cases.append(mk("master", FA.render_master(rng, a, plain=True), group="look-alike-tags", meta={"expect": FA.expect_master(a), "lookalike": t}))
+    return cases
+
+
+def c02_oracle(ctx, cases, impl, model):
+    fails = []
+    for c, a in zip(cases, impl):
+        r = C.Resp(a)
+        if r.status == "panic":
+            fails.append(dict(describe(c.line, a), what="panicked", law="no-panic")); continue
+        exp = c.meta.get("expect")
+        if exp is None:
+            if r.status != "ok":
+                fails.append(dict(describe(c.line, a), what="a repository fixture was rejected", law="accept"))
+            continue
+        la = c.meta.get("lookalike")
+        if r.status != "ok":
+            fails.append(dict(describe(c.line, a), what="a valid master playlist was rejected", law="accept", lookalike_tag=la)); continue
+        if r.obs != exp:
+            i = next((i for i, (x, y) in enumerate(zip(r.obs, exp)) if x != y), min(len(r.obs), len(exp)))
+            fails.append(dict(describe(c.line, a), what="the parsed value is not what the text says; first difference at offset %d: text says …%s, reported …%s" % (i, exp[max(0, i - 30):i + 60], r.obs[max(0, i - 30):i + 60]),
+                              law="faithful", expected=exp[:4000], lookalike_tag=la))
+    return fails
+
+
+@classifier("K8-tag-prefix-match")
+def _k8(f):
+    return f.get("lookalike_tag") is not None and f.get("lookalike_tag") in (f.get("payload") or "")
+
+
+PROPS["C02"] = {
+    "build": c02_build, "gate": {"status", "obs", "A"}, "oracle": c02_oracle,
+    "nontrivial": lambda c, a: a.startswith("ok") and len(a) > 60,
+    "rule": "abstract master playlists (what the text says: ordered items of the 7 master tags with any admissible attribute subset: 64-bit bandwidths and resolutions, all 67 in-stream ids, all enum values, quoted strings with commas / '=' / Unicode, IVs, key formats and version lists, frame rates, start offsets) rendered in varied surface syntax (attribute order, unknown attributes, blanks, comments, blank lines, CRLF, padding); the library's observation must EQUAL the observation computed from the abstract playlist; plus the fixtures and prefix look-alikes of known tags; non-trivial = accepted non-empty playlist",
+    "explanation": "see DESIGN.md section 7 (C02); theorems in Props/C02.lean",
+    "assumptions": ["the abstract playlists and their expected observations (bin/lib/faithful.py) are written from RFC 8216, with exact rational arithmetic for binary32 rounding"],
+}
+
+
+def c01_build(ctx):
+    rng = ctx.rng
+    cases = []
+    for t in corpus_texts():
+        if "#EXTINF" in t or "TARGETDURATION" in t:
+            cases.append(mk("media", t, group="corpus"))
+    for _ in range(ctx.n(5000, 100000)):
+        a = FA.gen_media_ast(rng, ctx.features)
+        cases.append(mk("media", FA.render_media(rng, a), group="abstract", meta={"ast": a}))
+    for _ in range(ctx.n(300, 6000)):
+        a = FA.gen_media_ast(rng, ctx.features, k1=True)
+        cases.append(mk("media", FA.render_media(rng, a), group="independent-segments-mixed-methods", meta={"ast": a, "k1": True}))
+    for _ in range(ctx.n(300, 6000)):
+        a = FA.gen_media_ast(rng, ctx.features, k8=True)
+        cases.append(mk("media", FA.render_media(rng, a), group="look-alike-tags", meta={"ast": a, "k8": True}))
+    return cases
+
+
+def c01_oracle(ctx, cases, impl, model):
+    fails = []
+    for c, a in zip(cases, impl):
+        r = C.Resp(a)
+        if r.status == "panic":
+            fails.append(dict(describe(c.line, a), what="panicked", law="no-panic")); continue
+        ast = c.meta.get("ast")
+        if ast is None:
+            if r.status != "ok":
+                fails.append(dict(describe(c.line, a), what="a repository fixture was rejected", law="accept"))
+            continue
+        look = [u for u in ast["unknown"] if u in ("#EXT-X-ENDLISTX", "#EXT-X-I-FRAMES-ONLY-NOT", "#EXT-X-INDEPENDENT-SEGMENTS2", "#EXT-X-DISCONTINUITYX", "#EXT-X-DISCONTINUITY-FOO:1")]
+        if r.status != "ok":
+            mixed = False
+            if ast["indep"]:
+                ms = {k["method"] if kind == "key" else "NONE" for s in ast["segments"] for kind, k in s["events"]}
+                mixed = "AES-128" in ms and len(ms) > 1
+            fails.append(dict(describe(c.line, a), what="a valid media playlist was rejected", law="accept", independent_segments_mixed_methods=mixed,
+                              lookalike_tag=look[0] if look else None)); continue
+        d = FA.compare_media(ast, r.obs)
+        if d is not None:
+            fails.append(dict(describe(c.line, a), what="the parsed value is not what the text says: " + d, law="faithful", lookalike_tag=look[0] if look else None))
+    return fails
+
+
+@classifier("K1-independent-segments-mixed-methods")
+def _k1(f):
+    return f.get("independent_segments_mixed_methods") is True
+
+
+PROPS["C01"] = {
+    "build": c01_build, "gate": {"status", "obs", "D"}, "oracle": c01_oracle,
+    "nontrivial": lambda c, a: a.startswith("ok") and "#EXTINF" in c.payload,
+    "rule": "abstract media playlists (0..8 segments, any combination of the 17 media tags with at most one segment tag of a kind per segment, any attribute subset, quoted strings with commas / '=' / blanks / Unicode, decimal durations with up to 9 fractional digits below 10^6 s, 64-bit integers at the type limits, key events of 7 key formats) rendered in varied surface syntax; every playlist-level value, the segment list and per segment URI, duration in ns, title, discontinuity flag, program date-time, date range with typed client attributes, map and byte range must equal what the abstract playlist says, and the text must be accepted; plus fixtures, INDEPENDENT-SEGMENTS with mixed methods and prefix look-alikes of known tags; non-trivial = accepted playlist with at least one segment",
+    "explanation": "see DESIGN.md section 7 (C01); theorems in Props/C01.lean; keys in effect / their order / IV completion / numbering are C06 / C11 / C07",
+    "assumptions": ["the abstract playlists and the comparison (bin/lib/faithful.py) are written from RFC 8216, with exact decimal arithmetic for durations and exact rational rounding for binary32"],
+}
